@@ -8,6 +8,16 @@ E_CASES = ("absent", "present/ranges=None", "present/ranges=Some")
 I_CASES = ("absent", "present")
 
 
+def join_helpers(fx):
+    """The agent's function(s) that wait for a spawned task: free async fns whose only argument is a tokio JoinHandle (handle_task today,
+    whatever it is called).  Returned as def paths."""
+    out = sorted(it["qdef"] for it in fx.item_list if it.get("kind") == "Fn" and it.get("crate") == AGENT and it.get("async")
+                 and len(it.get("inputs") or []) == 1 and it["inputs"][0].startswith("tokio::task::JoinHandle<") and "::tests::" not in it["qdef"])
+    if not out:
+        raise F.AnchorLost("no async fn of the agent takes a JoinHandle (the helper that joins a spawned task)")
+    return out
+
+
 def find_compare(fx):
     cands = [n for n in fx.thir if n.endswith(">::compare") and "policies::compare" in n and "closure" not in n]
     if len(cands) != 1:
